@@ -677,12 +677,12 @@ class XPathToken(Token[ta.XPathTokenType]):
             if isinstance(op2, Duration):
                 return Decimal(op1), op2
             if isinstance(op2, Decimal):
-                return op1, type(op1)(op2)
+                return op1, type(op1)(op2 or 0)  # xs:decimal has no negative zero
         if isinstance(op2, float):
             if isinstance(op1, Duration):
                 return op1, Decimal(op2)
             if isinstance(op1, Decimal):
-                return type(op2)(op1), op2
+                return type(op2)(op1 or 0), op2  # xs:decimal has no negative zero
 
         return op1, op2
 
